@@ -62,9 +62,15 @@ package cmd
 //@   pure
 //@   requires client != nil
 
+// hash-object prints, for each argument, the id a blob with that file's bytes has (C01): hex(SHA-1('blob <len>\0<bytes>'))
 //@ func hashObjectCmd.RunE
+//@   returns err
 //@   requires clientWF() && cmd != nil
 //@   invariant-all clientWF()
+//@   ensures [ids] {C01} err == nil ==> len(stdout) == len(old(stdout)) + len(args) && (forall j int :: 0 <= j && j < len(args) ==> stdout[len(old(stdout)) + j] == hex(object.blobId(content(fs, args[j]))) + "\n")
+//@   loop 0:
+//@     invariant [count] len(stdout) == len(old(stdout)) + it
+//@     invariant [ids] forall j int :: 0 <= j && j < it ==> stdout[len(old(stdout)) + j] == hex(object.blobId(content(fs, args[j]))) + "\n"
 
 //@ func logCmd.PreRunE
 //@   returns err
@@ -79,9 +85,15 @@ package cmd
 //@   pure
 //@   requires client != nil
 
+// ls-files prints one line per staged entry, in index order: the path, with -s preceded by the id and four blanks (C05)
+//@ pred lsLine(e) := ite(isShowStaged, hex(e.Hash) + "    " + string(e.Path) + "\n", string(e.Path) + "\n")
 //@ func lsFilesCmd.Run
 //@   requires clientWF() && cmd != nil
 //@   invariant-all clientWF()
+//@   ensures [lines] {C05,C06} len(stdout) == len(old(stdout)) + len(client.Idx.Entries) && (forall j int :: 0 <= j && j < len(client.Idx.Entries) ==> stdout[len(old(stdout)) + j] == lsLine(client.Idx.Entries[j]))
+//@   loop 0:
+//@     invariant [count] len(stdout) == len(old(stdout)) + it
+//@     invariant [lines] forall j int :: 0 <= j && j < it ==> stdout[len(old(stdout)) + j] == lsLine(client.Idx.Entries[j])
 
 //@ func reflogCmd.PreRunE
 //@   returns err
@@ -120,6 +132,20 @@ package cmd
 //@   requires clientWF() && cmd != nil
 //@   requires [head-sync] headFileSync()
 //@   invariant-all clientWF()
+
+// rev-parse prints, for each name in the order given, the content of that branch's file ("head" in any case stands for
+// the current branch): one line per name, nothing else (C10). stdout is the ghost sequence of lines printed so far.
+//@ pred refTarget(h, name) := ite(toLower(name) == "head", h.Reference, name)
+//@ func revParse
+//@   returns err
+//@   modifies $out
+//@   requires head != nil
+//@   ensures [lines] {C10} err == nil ==> len(stdout) == len(old(stdout)) + len(refNames) && (forall j int :: 0 <= j && j < len(refNames) ==> stdout[len(old(stdout)) + j] == content(fs, store.refPath(rootGoitPath, refTarget(head, refNames[j]))) + "\n")
+//@   ensures [earlier-kept] {C10} forall j int :: 0 <= j && j < len(old(stdout)) ==> stdout[j] == old(stdout)[j]
+//@   loop 0:
+//@     invariant [count] len(stdout) == len(old(stdout)) + it
+//@     invariant [lines] forall j int :: 0 <= j && j < it ==> stdout[len(old(stdout)) + j] == content(fs, store.refPath(rootGoitPath, refTarget(head, refNames[j]))) + "\n"
+//@     invariant [earlier-kept] forall j int :: 0 <= j && j < len(old(stdout)) ==> stdout[j] == old(stdout)[j]
 
 //@ func revParseCmd.PreRunE
 //@   returns err
@@ -262,11 +288,6 @@ package cmd
 //@   returns err
 //@   modifies fs, $rdpos, $hashdata
 //@   requires index != nil && store.wfIndex(index)
-
-//@ func revParse
-//@   returns err
-//@   modifies $out
-//@   requires head != nil
 
 //@ func writeTreeObject
 //@   returns o, err
